@@ -687,9 +687,13 @@ pub fn run_shard(ctx: &ShardCtx, rep: &mut Report) {
     let tag = format!("s{}", ctx.shard);
     let mut minimised: std::collections::BTreeSet<String> = Default::default();
     for i in 0..total {
+        if ctx.past_end(i) {
+            break;
+        }
         if !ctx.mine(i) {
             continue;
         }
+        rep.current_run = i;
         let case = make_case(ctx, i);
         let (exp, o, found) = match evaluate(&case, &tag) {
             Ok(x) => x,
